@@ -28,7 +28,7 @@ ASSUMPTIONS = [
 ]
 BOUNDS = {
     "quick": {"program_size": 2, "nesting": 2, "inputs": [0, 1, 2], "drivers": len(P.DRIVERS_QUICK)},
-    "thorough": {"program_size": 3, "nesting": 2, "inputs": [0, 1, 2], "drivers": len(P.DRIVERS_THOROUGH)},
+    "thorough": {"program_size": "2 over the full menu, 3 over the core menu of 30 forms", "nesting": 2, "inputs": [0, 1, 2], "drivers": len(P.DRIVERS_THOROUGH)},
 }
 CHUNK = 10
 
@@ -37,7 +37,7 @@ def program_sets(tier):
     return [("gen", dict()),
             # rich signatures (positional-only, defaults, *rest, keyword-only, **kw, docstring) on small programs
             ("sig", dict(size=1 if tier == "quick" else 2, sigs=("rich", "kwonly", "doc", "closure-default"), key=("c01sig", tier))),
-            C.odd_set(tier)]
+            C.odd_set(tier)] + C.core3_sets(tier)
 
 
 def units(tier):
